@@ -7,6 +7,7 @@ import (
 	"context"
 	"fmt"
 	"net"
+	"sort"
 	"strings"
 	"time"
 
@@ -76,6 +77,37 @@ func buildAnswer(name string, t uint16, v int) dohmem.Answer {
 }
 
 // contentOf renders what a Resolve result says about one key, as "version" markers.
+// snapResult renders every byte a result holds.
+func snapResult(res ech.ResolveResult) string {
+	var b strings.Builder
+	fmt.Fprintf(&b, "port=%d addr=", res.Port)
+	for _, ip := range res.Address {
+		fmt.Fprintf(&b, "%x,", []byte(ip))
+	}
+	for _, h := range res.HTTPS {
+		fmt.Fprintf(&b, " {%d %q %d %v ech=%x alpn=%q", h.Priority, h.Target, h.Port, h.NoDefaultALPN, h.ECH, h.ALPN)
+		for _, ip := range h.IPv4Hint {
+			fmt.Fprintf(&b, " %x", []byte(ip))
+		}
+		for _, ip := range h.IPv6Hint {
+			fmt.Fprintf(&b, " %x", []byte(ip))
+		}
+		b.WriteString("}")
+	}
+	var names []string
+	for n := range res.Additional {
+		names = append(names, n)
+	}
+	sort.Strings(names)
+	for _, n := range names {
+		fmt.Fprintf(&b, " %s=", n)
+		for _, ip := range res.Additional[n] {
+			fmt.Fprintf(&b, "%x,", []byte(ip))
+		}
+	}
+	return b.String()
+}
+
 func contentOf(res ech.ResolveResult, key string) string {
 	switch {
 	case strings.HasSuffix(key, "/65"):
@@ -162,7 +194,20 @@ func runHistory(hist []int, srv *dohmem.Server, clock *time.Time) (out histResul
 			out.viol, out.what = key, what
 		}
 	}
+	// results handed out earlier belong to their callers: whatever the resolver does later (refresh an expired entry, replace
+	// it, fail) must leave them exactly as they were returned
+	type keptResult struct {
+		res  ech.ResolveResult
+		snap string
+		step int
+	}
+	var kept []keptResult
 	for step, e := range hist {
+		for _, k := range kept {
+			if now := snapResult(k.res); now != k.snap {
+				fail("earlier-result-modified", fmt.Sprintf("the result returned at step %d has changed by step %d (%s):\n was %s\n now %s", k.step, step, eventNames[hist[step-1]], k.snap, now))
+			}
+		}
 		switch e {
 		case 2:
 			*clock = clock.Add(time.Second)
@@ -187,6 +232,9 @@ func runHistory(hist []int, srv *dohmem.Server, clock *time.Time) (out histResul
 			before := len(srv.Queries())
 			got, err := res.Resolve(context.Background(), name)
 			qs := srv.Queries()[before:]
+			if err == nil {
+				kept = append(kept, keptResult{got, snapResult(got), step})
+			}
 			out.calls++
 			out.queries += len(qs)
 			asked := map[string]int{}
